@@ -1,4 +1,4 @@
-import GixModel.Lemmas.C04h
+import GixModel.Lemmas.C04i
 /-
 C04 — Tree editing yields the same tree as building the result from scratch.  PROPERTY THEOREMS ONLY.
 
@@ -10,8 +10,9 @@ state as such a map (through the cached trees, else through `find`).
 
 Shape of the result: REFINEMENT for EVERY history. Each operation on an editor state satisfying
 the invariant `InvW` succeeds, re-establishes the invariant and commutes with `abs`
-(`upsert_refines`, `remove_refines`, `cursor_at_refines`, `set_root_refines`, `write_refines`);
-by induction every history does (`history_refines_partial`). `write` returns the id of a tree
+(`upsert_refines`, `remove_refines`, `cursor_at_refines`, `set_root_refines`, `write_refines`,
+and through a live cursor `cursor_upsert_refines`, `cursor_remove_refines`, `cursor_write_refines`);
+by induction every history does (`history_refines`). `write` returns the id of a tree
 that is canonical (`Canon`: every reachable tree strictly sorted by git's order with unique valid
 names, no null ids, directories mode 040000 and never empty) and reads back as exactly the
 abstract file system; a file system has at most one canonical tree (`canonical_tree_unique`), so
@@ -21,8 +22,8 @@ the id is the one any from-scratch builder of canonical trees (git) computes
 Assumed of the id function (`HashOk`): injective, `hash [] = empty-tree id`, never the null id.
 Domain (`ValidOp`): non-empty paths of non-empty slash-free components; upserted kinds are
 non-tree (blob, executable, link, commit; a null id makes a placeholder = nothing); `set_root`
-trees are canonical stored trees. NOT covered by theorems (see `C04_full`): edits and writes
-*through a live cursor* (`Cursor::{upsert,remove,write}`) and upserts of kind `Tree`.
+trees are canonical stored trees; cursor operations need a live cursor. Upserts of kind `Tree`
+(grafting a stored tree, or the empty tree, as a leaf) are outside this domain.
 -/
 namespace GixModel.Props.C04
 open GixModel GixModel.Tree GixModel.C04
@@ -75,10 +76,49 @@ theorem canonical_tree_unique (hash : List Entry → Bytes) (hh : HashOk hash)
     (heq : absStore S1 t1 = absStore S2 t2) : t1 = t2 :=
   canon_unique hh h1 h2 c1 c2 (fun q => congrFun heq q)
 
-/-- EVERY history of upsert / remove / write / set_root / cursor_at operations, from any state
-satisfying the invariant, runs without error and ends in a state standing for the file system
-obtained by running the same history on the specification. -/
-theorem history_refines_partial (hash : List Entry → Bytes) (hh : HashOk hash) (ed0 : Ed)
+/-- `Cursor::upsert` through a cursor whose tree is cached at `pfx` refines `Spec.upsert (pfx ++ p)`. -/
+theorem cursor_upsert_refines (ed : Ed) (hinv : Inv ed) (pfx : Path) (t : List Entry)
+    (hP : aget pfx ed.trees = some t) (p : Path) (hp : ValidPath p) (mode : Nat) (id : Bytes)
+    (hk : isTreeMode mode = false) :
+    ∃ ed', cursorUpsert ed pfx p mode id = .ok ed' ∧ Inv ed' ∧ ed'.store = ed.store ∧
+      (aget pfx ed'.trees).isSome = true ∧
+      abs ed' = Spec.C04.upsert (pfx ++ p) (leafVal mode id) (abs ed) :=
+  cursorUpsert_spec hinv hP hp hk
+
+/-- `Cursor::remove` refines `Spec.remove (pfx ++ p)`. -/
+theorem cursor_remove_refines (ed : Ed) (hinv : Inv ed) (pfx : Path) (t : List Entry)
+    (hP : aget pfx ed.trees = some t) (p : Path) (hp : ValidPath p) :
+    ∃ ed', cursorRemove ed pfx p = .ok ed' ∧ Inv ed' ∧ ed'.store = ed.store ∧
+      (aget pfx ed'.trees).isSome = true ∧ abs ed' = Spec.C04.remove (pfx ++ p) (abs ed) :=
+  cursorRemove_spec hinv hP hp
+
+/-- `Cursor::write()`: the returned id is that of a stored canonical tree that reads as what the
+editor holds below the cursor; the editor (which keeps the other cached trees,
+`WriteMode::FromCursor`) stands for the same file system as before and keeps its invariant. -/
+theorem cursor_write_refines (hash : List Entry → Bytes) (hh : HashOk hash) (ed : Ed)
+    (h : InvW hash ed) (pfx : Path) (t : List Entry) (hP : aget pfx ed.trees = some t) :
+    ∃ calls ed' root, cursorWrite hash ed pfx = .ok (hash root) calls ed' ∧ InvW hash ed' ∧
+      aget (hash root) ed'.store = some root ∧ Canon ed'.store root ∧
+      (∀ q, q ≠ [] → absStore ed'.store root q = abs ed (pfx ++ q)) ∧ abs ed' = abs ed ∧
+      (aget pfx ed'.trees).isSome = true := by
+  obtain ⟨calls, ed', root, h1, h2, h3, h4, h5, h6, _, h8⟩ := cursorWrite_spec hh h hP
+  exact ⟨calls, ed', root, h1, h2, h3, h4, h5, h6, h8⟩
+
+/-- EVERY history over the complete operation set — upsert, remove, write, set_root, cursor_at and,
+while a cursor is alive, Cursor::upsert / Cursor::remove / Cursor::write — from any state
+satisfying the invariant runs without error or panic and ends in a state standing for the file
+system obtained by running the same history on the specification. -/
+theorem history_refines (hash : List Entry → Bytes) (hh : HashOk hash) (ed0 : Ed)
+    (h0 : InvW hash ed0) (ops : List OpF) (hv : ValidF ed0.store none ops) :
+    ∃ r, runF hash ⟨ed0, none⟩ ops = some r ∧ InvW hash r.ed ∧
+      abs r.ed = (ops.foldl (specF ed0.store) (abs ed0, none)).1 := by
+  have hg : GoodF hash ed0.store ⟨ed0, none⟩ (abs ed0, none) :=
+    ⟨h0, StoreMono.refl _, rfl, rfl, fun _ h => by cases h⟩
+  obtain ⟨r, h1, h2⟩ := runF_spec hh h0.inv.store ops ⟨ed0, none⟩ _ hg hv
+  exact ⟨r, h1, h2.inv, h2.abs_eq⟩
+
+/-- The same for histories of direct editor operations only (no live cursor). -/
+theorem history_refines_editor_ops (hash : List Entry → Bytes) (hh : HashOk hash) (ed0 : Ed)
     (h0 : InvW hash ed0) (ops : List Op) (hv : ∀ op ∈ ops, ValidOp ed0.store op) :
     ∃ ed', runHistory hash ed0 ops = some ed' ∧ InvW hash ed' ∧
       abs ed' = ops.foldl (specStep ed0.store) (abs ed0) := by
@@ -96,7 +136,7 @@ theorem history_write_matches_scratch_build (hash : List Entry → Bytes) (hh : 
     (hfs : absStore Sg g = ops.foldl (specStep ed0.store) (abs ed0)) :
     ∃ ed1 calls ed2, runHistory hash ed0 ops = some ed1 ∧
       write hash ed1 = .ok (hash g) calls ed2 := by
-  obtain ⟨ed1, h1, h2, h3⟩ := history_refines_partial hash hh ed0 h0 ops hv
+  obtain ⟨ed1, h1, h2, h3⟩ := history_refines_editor_ops hash hh ed0 h0 ops hv
   obtain ⟨calls, ed2, root, w1, w2, _, w4, w5, _⟩ := write_refines hash hh ed1 h2
   have : root = g := canonical_tree_unique hash hh _ _ w2.hashed hSg root g w4 hg (by rw [w5, h3, hfs])
   subst this
@@ -123,13 +163,16 @@ example :
   · exact (by decide : ValidPath [[97]])
   · exact ⟨by decide, by decide⟩
 
-/-- The full statement (NOT proved): the refinement for the complete operation set of the property,
-i.e. additionally `Cursor::upsert`, `Cursor::remove` and `Cursor::write` through a live cursor.
-(Upserts of kind `Tree` would have to be added to `ValidOp` as well.) -/
-def C04_full : Prop :=
-  ∀ (hash : List Entry → Bytes), HashOk hash → ∀ (ed0 : Ed), InvW hash ed0 →
-    ∀ (ops : List OpF), ValidF ed0.store none ops →
-      ∃ r, runF hash ⟨ed0, none⟩ ops = some r ∧ InvW hash r.ed ∧
-        abs r.ed = (ops.foldl (specF ed0.store) (abs ed0, none)).1
+-- non-vacuity of `history_refines`: a history through a cursor, with a cursor write in the middle
+example :
+    let ops : List OpF := [.base (.upsert [[97], [98]] 0o100644 [1]), .base (.cursorAt [[97]]),
+      .cUpsert [[99]] 0o100755 [2], .cWrite, .cRemove [[98]], .base .write]
+    ValidF emptyEd.store none ops ∧
+    ((runF encHash ⟨emptyEd, none⟩ ops).map (fun r => (abs r.ed [[97], [99]], abs r.ed [[97], [98]])))
+      = some (some (0o100755, [2]), none) := by
+  refine ⟨?_, by decide +kernel⟩
+  simp only [ValidF]
+  refine ⟨⟨by decide, by decide⟩, by decide, ⟨rfl, by decide, by decide, ?_⟩⟩
+  exact ⟨rfl, ⟨rfl, by decide, ⟨trivial, trivial⟩⟩⟩
 
 end GixModel.Props.C04
